@@ -104,7 +104,9 @@ def run(ctx):
             muts.append(("truncate", pkt[:k], f"first {k} bytes"))
         # single-byte substitutions
         for i in range(len(pkt)):
-            vals = range(256) if thorough else rng.sample(range(256), 8)
+            # all 255 substitutes for the marker / length / type bytes; elsewhere a random sample plus the values that mean
+            # something to some layer (frame start 0xAA, markers 5A / 83 70, 00, FF, the neighbouring values)
+            vals = range(256) if (thorough or i < 6) else sorted(set(rng.sample(range(256), 8)) | {0x00, 0xFF, 0xAA, 0x5A, 0x83, 0x70, (pkt[i] + 1) & 0xFF, (pkt[i] - 1) & 0xFF})
             for v in vals:
                 if v != pkt[i]:
                     m = bytearray(pkt)
